@@ -314,6 +314,10 @@ pub const ENTRIES: &[Entry] = &[
     crate::net::N_FANIN,
     crate::net::N_M2O,
     crate::net::N_O2M,
+    // hydro_std::quorum::collect_quorum_with_response(input, 2, 2): a safe API whose first output
+    // is typed TotalOrder. No spec (schedule independence only). Exposes the known finding F1
+    // (FINDINGS.md), class `sequence_differs/q_resp_22`.
+    crate::p39p::Q_RESP_22,
 ];
 
 /// The final observable contents of every output, in the canonical form of its kind, or the
@@ -412,7 +416,7 @@ pub fn run(entry: &Entry, sim: &mut Sim) -> Outcome {
     if ex_b.max_in_flight >= 2 {
         sim.probe("two_messages_in_flight");
     }
-    let want = (entry.final_spec.expect("C28 entry without final_spec"))(&inputs);
+    let want = entry.final_spec.map(|spec| spec(&inputs));
     let mut violation = None;
     let mut viol = |class: &str, detail: String| {
         if violation.is_none() {
@@ -437,10 +441,12 @@ pub fn run(entry: &Entry, sim: &mut Sim) -> Outcome {
         (Ok(a), Ok(b)) => {
             if a != b {
                 viol(
-                    "final_differs",
+                    // q_resp_22 has only totally ordered outputs: same class as the C29 oracle, which
+                    // is the key of the known finding in known_findings.json
+                    if entry.name == "q_resp_22" { "sequence_differs" } else { "final_differs" },
                     format!("inputs {inputs:?}: all-at-once gives {a:?}, releases {:?} give {b:?}", plan_b.rel),
                 );
-            } else if *a != want {
+            } else if let Some(want) = want.as_ref().filter(|w| *w != a) {
                 viol("final_vs_spec", format!("inputs {inputs:?}: got {a:?}, spec says {want:?}"));
             }
         }
